@@ -56,6 +56,7 @@ def pe_remaining_lemma():
 
 
 NUMERIC = z3.Function("numeric_valued_family", INT, BOOL)
+CHECKED = z3.Function("check_returns_normally", INT, INT, BOOL)    # node._check(nextbucket) returned normally (heap unchanged)
 VADD = z3.Function("vadd", INT, INT, INT)
 VMUL = z3.Function("vmul", INT, INT, INT)
 VSUB = z3.Function("vsub", INT, INT, INT)
@@ -423,6 +424,23 @@ class SpecMixin:
             return mk_int(self.hget(st, "$it_pos", args[0].z))
         if f == "it_pairs":
             return mk_bool(self.hget(st, "$it_pairs", args[0].z))
+        if f == "checked":     # node._check(next) returned normally (learnt at a call site; see ghost 'learn')
+            b = args[1].z if args[1].kind == "ref" else z3.IntVal(0)
+            return mk_bool(CHECKED(args[0].z, b))
+        if f == "nsize":       # the `size` of a node: keys of a leaf, children of an interior node
+            o = args[0].z
+            cid = self.hget(st, "$cls", o)
+            leaf = z3.Or(cid == CLASS_IDS["Bucket"], cid == CLASS_IDS["Set"])
+            return mk_int(z3.If(leaf, self.llen(st, self.hget(st, "_keys", o)), self.llen(st, self.hget(st, "_data", o))))
+        if f == "is_leaf":
+            cid = self.hget(st, "$cls", args[0].z)
+            return mk_bool(z3.Or(cid == CLASS_IDS["Bucket"], cid == CLASS_IDS["Set"]))
+        if f == "is_tree":
+            cid = self.hget(st, "$cls", args[0].z)
+            return mk_bool(z3.Or(cid == CLASS_IDS["Tree"], cid == CLASS_IDS["TreeSet"]))
+        if f == "bucket_cls_of":   # class id of self._bucket_type
+            cid = self.hget(st, "$cls", args[0].z)
+            return mk_int(z3.If(cid == CLASS_IDS["Tree"], CLASS_IDS["Bucket"], CLASS_IDS["Set"]))
         if f == "numeric":     # operand of a numeric-valued family (MERGE* attached)
             return mk_bool(NUMERIC(args[0].z))
         if f == "one":         # the family's multiplication identity (1 / 1.0)
